@@ -24,6 +24,7 @@ UNIT_MODES = {
     'ops_arith_i': ['dbg', 'rel'],
     'ops_arith_u': ['dbg', 'rel'],
     'ops_core': ['dbg', 'rel'],
+    'floatcast': ['dbg', 'rel'],
 }
 
 # property -> verus units owned by the property (dependencies are added automatically) and the
@@ -41,7 +42,7 @@ PROPS = {
     'C10': dict(units=['parse'], title='parsing'),
     'C11': dict(units=['radixout'], title='radix output'),
     'C13': dict(units=['cast', 'xcast', 'xtry', 'convert'], title='checked conversions'),
-    'C14': dict(units=[], level='model_checking', title='float casts'),
+    'C14': dict(units=['floatcast'], title='float casts'),
     'C17': dict(units=['ops_core', 'ops_arith_u', 'ops_arith_i', 'ops_shl_u', 'ops_shr_u', 'ops_shl_i', 'ops_shr_i', 'ops_misc'], title='operator traits agree with inherent methods'),
     'C18': dict(units=['numtraits_fwd', 'numtraits_int', 'numtraits_gcd', 'numtraits_roots'], title='num_traits / num_integer implementations'),
     'C19': dict(units=['numtraits_conv', 'numtraits_conv2', 'numtraits_conv3', 'numtraits_conv4'], title='num_traits conversions'),
